@@ -76,12 +76,14 @@ func registerReleaseLevelOption() {
 
 func updateReleaseLevel() {
 	// get value
+	// Same precedence as the getters: user value, then default layer, then
+	// the registered default.
 	value := releaseLevelOption.activeFallbackValue
-	if releaseLevelOption.activeValue != nil {
-		value = releaseLevelOption.activeValue
-	}
 	if releaseLevelOption.activeDefaultValue != nil {
 		value = releaseLevelOption.activeDefaultValue
+	}
+	if releaseLevelOption.activeValue != nil {
+		value = releaseLevelOption.activeValue
 	}
 	// set atomic value
 	switch value.stringVal {
